@@ -482,7 +482,7 @@ func (p *Probe[A]) stress(arg json.RawMessage, noise []json.RawMessage, goroutin
 func Main(id string, rule string, body func(r *Run)) {
 	tier := flag.String("tier", envOr("VERIF_TIER", "quick"), "quick|thorough")
 	replay := flag.String("replay", "", "replay one violation file instead of exploring")
-	budget := flag.Duration("budget", 0, "internal deadline (default: quick 75s, thorough 15m)")
+	budget := flag.Duration("budget", 0, "internal deadline (default: quick 120s, thorough 15m)")
 	flag.Parse()
 	if os.Getenv("GOGC") == "" {
 		debug.SetGCPercent(800) // the probes allocate small short-lived objects on 16 workers; memory is not a constraint
@@ -505,7 +505,7 @@ func Main(id string, rule string, body func(r *Run)) {
 		}
 	}
 	if d == 0 {
-		d = 75 * time.Second
+		d = 120 * time.Second
 		if *tier == "thorough" {
 			d = 15 * time.Minute
 		}
